@@ -427,6 +427,74 @@ def check_algo(ctx):
               key=('L3', 'byte-array'), site=ctx.site(cb, cb.node), detail={'returned': tq.text(r)})
 
 
+WIN = ('acc', '<window>', 0)      # the unconsumed rest of a buffer that a loop walks
+
+
+def window_view(sv):
+    """A loop that walks a buffer either re-slices it (`data = data[n:]`, reading at the front) or keeps a cursor (`offset += n`, reading
+    at `offset`).  Both are brought to one form in which reads are relative to the unconsumed rest WIN: returns (rewrite, advance) where
+    rewrite(term) expresses a term of the loop body relative to WIN and advance is the amount consumed per iteration - or None when the
+    function has no such loop."""
+    for lid, ups in sv.loop_updates.items():
+        for k, v in ups.items():
+            v = strip_ids(v)
+            acc = ('acc', k, 0)
+            if v[0] == 'slice' and v[1] == acc and v[3] == NONE and v[4] == NONE:
+                n = v[2]
+
+                def rw(t, acc=acc):
+                    t = strip_ids(t)
+                    if t == acc:
+                        return WIN
+                    return tuple(rw(x) if isinstance(x, tuple) else x for x in t) if isinstance(t, tuple) and t[:1] != ('const',) else t
+                return rw, rw(n)
+            if v[0] == 'add' and acc in v[1] and strip_ids(sv.loop_inits.get(lid, {}).get(k, NONE)) == const(0):
+                rest = tuple(x for x in v[1] if x != acc)
+                n = rest[0] if len(rest) == 1 else ('add', rest)
+                # the buffer: whatever is read at the cursor
+                bufs = set()
+                for c in sv.calls:
+                    if c.lib == 'struct.unpack_from' and strip_ids(c.args.get('#2', NONE)) == acc:
+                        bufs.add(strip_ids(c.args.get('#1', NONE)))
+                for x in tq.find(strip_ids(v), lambda y: False):
+                    pass
+                if len(bufs) != 1:
+                    sl = [strip_ids(x) for t_ in [c.term for c in sv.calls] for x in tq.find(t_, lambda y: y[0] == 'slice' and acc in (
+                        strip_ids(y[2]),) or (y[0] == 'slice' and strip_ids(y[2])[0] == 'add' and acc in strip_ids(y[2])[1]))]
+                    bufs |= {x[1] for x in sl}
+                if len(bufs) != 1:
+                    continue
+                buf = bufs.pop()
+
+                def minus(t, acc=acc):
+                    """t - cursor when t is cursor [+ something], else None"""
+                    if t == acc:
+                        return const(0)
+                    if t[0] == 'add' and acc in t[1]:
+                        r_ = tuple(x for x in t[1] if x != acc)
+                        return r_[0] if len(r_) == 1 else ('add', r_)
+                    return None
+
+                def rw(t, acc=acc, buf=buf):
+                    t = strip_ids(t)
+                    if not isinstance(t, tuple) or t[:1] == ('const',):
+                        return t
+                    if t[0] == 'slice' and t[1] == buf and t[4] == NONE:
+                        lo = minus(t[2])
+                        hi = NONE if t[3] == NONE else minus(t[3])
+                        if lo is not None and hi is not None:
+                            if lo == const(0) and hi == NONE:
+                                return WIN
+                            return ('slice', WIN, rw(lo), hi if hi == NONE else rw(hi), NONE)
+                    if t[0] == 'call' and t[1] == 'struct.unpack_from' and dict(t[3]).get('#1') == buf and dict(t[3]).get('#2') == acc:
+                        return ('call', t[1], t[2], tuple((a, (WIN if a == '#1' else rw(x))) for a, x in t[3] if a != '#2'))
+                    if t[0] == 'bin' and t[1] == '-' and t[3] == acc and t[2] == ('call', 'builtins.len', NONE, (('#0', buf),)):
+                        return ('call', 'builtins.len', NONE, (('#0', WIN),))
+                    return tuple(rw(x) if isinstance(x, tuple) else x for x in t)
+                return rw, rw(n)
+    return None
+
+
 def check_framing(ctx, sizes):
     sr = ctx.func('netlink.NetlinkProtocol.send_recv')
     S = ctx.sval(sr)
@@ -509,10 +577,13 @@ def check_framing(ctx, sizes):
     ctx.check(ok, 'L4', 'a reply raises NetlinkError exactly when it is NLMSG_ERROR with a non-zero code; an ack (code 0) is success',
               key=('L4', 'reply-error'), site=site)
     # the reply buffer advances by nlmsg_len of the message just parsed
-    adv = [v for ups in S.loop_updates.values() for k, v in ups.items()
-           if v[0] == 'slice' and strip_ids(v[1]) == ('acc', k, 0) and v[3] == NONE and v[4] == NONE]
-    ok = len(adv) == 1 and all(strip_ids(x[2])[0] == 'attr' and strip_ids(x[2])[2] == 'length' and
-                               tq.find_calls(x[2], 'netlink.NetlinkProtocol.parse_message') for x in adv)
+    wv = window_view(S)
+    ok = wv is not None
+    if ok:
+        rw, adv = wv
+        # ... by the nlmsg_len of the message parsed at the front of what is left
+        ok = adv[0] == 'attr' and adv[2] == 'length' and adv[1][0] == 'index' and adv[1][2] == const(0) \
+            and tq.is_call(adv[1][1], 'netlink.NetlinkProtocol.parse_message') and list(tq.args(adv[1][1]).values()) == [WIN]
     ctx.check(ok, 'L4', 'the reply buffer is consumed message by message using nlmsg_len', key=('L4', 'reply-advance'), site=site)
     ds = ctx.func('xfrm.Xfrm.delete_sa')
     D = ctx.sval(ds)
@@ -607,18 +678,18 @@ def check_events(ctx, H):
     A = ctx.sval(pa)
     r = strip_ids(A.ret())
     ups = [c for c in A.calls if c.lib == 'struct.unpack_from']
-    ok = r[0] == 'dict' and len(r[1]) == 1 and len(ups) == 1 and ups[0].args.get('#0') == const('HH') and '#2' not in ups[0].args
+    wv = window_view(A)
+    ok = r[0] == 'dict' and len(r[1]) == 1 and len(ups) == 1 and ups[0].args.get('#0') == const('HH') and wv is not None
     if ok:
-        u = strip_ids(ups[0].term)
-        cur = strip_ids(ups[0].args['#1'])
-        ent = r[1][0]
-        ok = ent[0] == 'each' and ent[4][0] == 'kv' and ent[4][1] == ('index', u, const(1))
+        rw, adv = wv
+        u = rw(ups[0].term)
+        ent = rw(r[1][0])
+        ok = u == ('call', 'struct.unpack_from', NONE, (('#0', const('HH')), ('#1', WIN))) \
+            and ent[0] == 'each' and ent[4][0] == 'kv' and ent[4][1] == ('index', u, const(1))
         v = ent[4][2] if ok else None
         ok = ok and tq.is_call(v) and v[2] == ('index', strip_ids(A.expr('cls.attribute_types')), ('index', u, const(1))) \
-            and tq.args(v).get('data') == ('slice', cur, const(4), ('index', u, const(0)), NONE)
-        adv = [strip_ids(v) for ups in A.loop_updates.values() for k, v in ups.items() if strip_ids(v)[0] == 'slice' and strip_ids(v)[1] == cur]
-        ok = ok and len(adv) == 1 and adv[0][2] == ('index', u, const(0)) and adv[0][3] == NONE
-        zero = strip_ids(A.expr('_ == 0'))
+            and tq.args(v).get('data') == ('slice', WIN, const(4), ('index', u, const(0)), NONE)
+        ok = ok and adv == ('index', u, const(0))
         ok = ok and any(a[0][0] == 'cmp' and a[0][1] == '==' and const(0) in a[0][2:] and ('index', u, const(0)) in a[0][2:] and not a[1]
                         for a in ent[3])
     ctx.check(ok, 'L5', 'attributes are (nla_len, nla_type) in host order followed by nla_len - 4 octets of data; a zero length ends the walk',
